@@ -475,16 +475,18 @@ class BytesIO(IOBase):
                     self._conn.send(request)
                     self.comLog('> %s', hexify(request))
                     reply = self._conn.readbytes(replylen, self.timeout)
+                    self.comLog('< %s', hexify(reply))
+                    # getFullReply may read more (self.readBytes): the connection may be lost there, too
+                    return self.getFullReply(request, reply)
                 except ConnectionClosed:
                     self.closeConnection()
                     raise CommunicationFailedError('disconnected') from None
-                self.comLog('< %s', hexify(reply))
-                return self.getFullReply(request, reply)
         except Exception as e:
             if self._conn is None:
                 raise SilentError('disconnected') from None
             if repr(e) != self._last_error:
-                self._last_error = str(e)
+                # (never an empty text: the reconnect callbacks are called only after an error was noted)
+                self._last_error = repr(e)
                 self.log.error(self._last_error)
             raise SilentError(repr(e)) from e
 
